@@ -18,6 +18,7 @@ func checkC06(r *Run) {
 	rulePoolCount(r, p)
 	ruleBufferPoolClean(r, p, []string{""})
 	if dw := p.Method("diode", "Writer", "Write"); dw != nil {
+		rulePoolBoundsAgree(r, p, "POOLBOUND", []string{"", "diode"})
 		ruleCopyBeforePublish(r, p, dw) // a writer in front of a diode recycles its buffer after Write returns (C10's rule)
 	}
 	r.Floor("A3", 8)
